@@ -51,6 +51,12 @@ def gen_system(rng, cfg, sid, big=False):
     kk = min(3, n // 8)
     if kk:
         rho[:, :kk] = 1e-8
+        if nspin == 2:
+            # points where only ONE spin channel is below the cutoff (radical tails): the
+            # SEP mask is per channel, the NPOL/POL mask is on the total density
+            rho[0, kk : 2 * kk] = 1e-8
+            rho[1, 2 * kk : 3 * kk] = 3e-7
+            rho[0, 2 * kk : 3 * kk] = 3e-7
     s2 = np.exp(nprng.uniform(-5, 2, size=(nspin, n)))
     desc = np.zeros((nspin, 3, n))
     desc[:, 0] = rho
@@ -245,6 +251,8 @@ def gen_cfg(rng):
 def gen_reaction(rng, cfg, ids):
     k = rng.randint(1, min(3, len(ids)))
     structs = rng.sample(ids, k)
+    if rng.chance(0.2):
+        structs.append(rng.choice(structs))  # the same system may be listed twice
     counts = [rng.choice([1, -1, 2, -2, 3, 0.5]) for _ in structs]
     has_c = any(kc["component"] != "x" for kc in cfg["kernels"])
     mode = 2 if (has_c and rng.chance(0.5)) else 0
@@ -307,6 +315,15 @@ def gen_history(seed):
         ops.append({"op": "add", "rxns": [gen_reaction(rng, cfg, ids) for _ in range(3)]})
     ops.append({"op": "fit", "x": None, "sigma_min": 0.25})
     ops.append({"op": "lik", "x": None, "sigma_min": 0.25})
+    if rng.chance(0.3):
+        # retrain on the same objects with different control points (same count when not reduced)
+        first = ops[0]
+        ids2 = rng.sample(ids, len(first["ids"]))
+        ops.append({"op": "ctrl", "ids": ids2, "reduce": first["reduce"], "npick": first["npick"], "pseed": rng.below(10**6)})
+        ops.append({"op": "store", "ids": list(ids)})
+        ops.append({"op": "add", "rxns": [gen_reaction(rng, cfg, ids) for _ in range(rng.randint(2, 5))]})
+        ops.append({"op": "fit", "x": None, "sigma_min": 0.25})
+        ops.append({"op": "lik", "x": None, "sigma_min": 0.25})
     return {"cfg": cfg, "ops": ops}
 
 
